@@ -58,13 +58,78 @@ type Case struct {
 	// exceeds the content actually present (declared-value independence).
 	Family []vh.B `json:"family,omitempty"`
 	Origin string `json:"origin,omitempty"` // how the input was made (histogram only)
+	// Sigs: an in-memory signatures section handed to the bundle-signature verifier (directly
+	// and after Bundle.WriteTo + bundle.Read), with attacker-chosen authority indices.
+	Sigs *SigsCase `json:"sigs,omitempty"`
+}
+
+type SubsetCase struct {
+	Authority uint64 `json:"authority"`
+	Signed    vh.B   `json:"signed"`
+	SigValid  bool   `json:"sig_valid"` // signature really made by fixture 0 over Signed
+	Sig       vh.B   `json:"sig,omitempty"`
+}
+
+type SigsCase struct {
+	AuthFixtures []int        `json:"auth_fixtures"`
+	Subsets      []SubsetCase `json:"subsets"`
+	ViaFile      bool         `json:"via_file"`
+}
+
+func runSigs(sc *SigsCase) bool {
+	sigs := &bundle.Signatures{}
+	for _, fx := range sc.AuthFixtures {
+		sigs.Authorities = append(sigs.Authorities, &certurl.AugmentedCertificate{Cert: gen.Fixtures()[fx%len(gen.Fixtures())].Leaf, OCSPResponse: []byte("o")})
+	}
+	f := gen.Fixtures()[0]
+	for _, ss := range sc.Subsets {
+		sig := []byte(ss.Sig)
+		if ss.SigValid {
+			msg := append(append([]byte(strings.Repeat(" ", 64)), []byte("Web Package 1 b2\x00")...), ss.Signed...)
+			h := sha256.Sum256(msg)
+			var err error
+			sig, err = ecdsa.SignASN1(rand.Reader, f.Key, h[:])
+			if err != nil {
+				panic(err)
+			}
+		}
+		sigs.VouchedSubsets = append(sigs.VouchedSubsets, &bundle.VouchedSubset{Authority: ss.Authority, Sig: sig, Signed: ss.Signed})
+	}
+	b := &bundle.Bundle{Version: bversion.VersionB2, Signatures: sigs, Exchanges: []*bundle.Exchange{{Request: bundle.Request{URL: mustURL("https://a.example/0")},
+		Response: bundle.Response{Status: 200, Header: map[string][]string{"Content-Type": {"text/plain"}}, Body: []byte("x")}}}}
+	if sc.ViaFile {
+		var buf bytes.Buffer
+		if _, err := b.WriteTo(&buf); err != nil {
+			return false
+		}
+		rb, err := bundle.Read(&buf)
+		if err != nil {
+			return false
+		}
+		b = rb
+	}
+	if b.Signatures == nil {
+		return false
+	}
+	v, err := signature.NewVerifier(b.Signatures, time.Unix(1_700_000_000, 0), b.Version)
+	if err != nil {
+		return false
+	}
+	for _, e := range b.Exchanges {
+		v.VerifyExchange(e)
+	}
+	return true
 }
 
 var discard = log.New(io.Discard, "", 0)
 
 // run executes the target once. ok reports whether the parser accepted the input.
+var currentSigs *SigsCase
+
 func run(target string, in, aux []byte, str, calls string) (ok bool) {
 	switch target {
+	case "signature.verify-struct":
+		return runSigs(currentSigs)
 	case "bundle.Read":
 		_, err := bundle.Read(bytes.NewReader(in))
 		return err == nil
@@ -286,6 +351,7 @@ func checkCase(c Case, r *vh.R, sub string) {
 	if c.Origin != "" {
 		r.Class("origin:" + c.Origin)
 	}
+	currentSigs = c.Sigs
 	inputs := append([]vh.B{c.Input}, c.Family...)
 	allocs := make([]uint64, len(inputs))
 	size := len(c.Input) + len(c.Aux) + len(c.Str)
@@ -521,9 +587,26 @@ func mustURL(s string) *url.URL {
 }
 
 func genCase(t *rapid.T) Case {
-	kind := rapid.SampledFrom([]string{"bundle", "bundle", "bundle-family", "bundle-verify", "subset", "subset-family", "sxg", "sxg", "sxg-family", "sxg-verify",
+	kind := rapid.SampledFrom([]string{"sigs-struct", "sigs-struct", "bundle", "bundle", "bundle-family", "bundle-verify", "subset", "subset-family", "sxg", "sxg", "sxg-family", "sxg-verify",
 		"certchain", "certchain-family", "sh", "sh", "mi", "mi-family", "cbor", "cbor-family", "ib", "random"}).Draw(t, "kind")
 	switch kind {
+	case "sigs-struct":
+		sc := &SigsCase{ViaFile: rapid.Bool().Draw(t, "sviafile")}
+		for i := rapid.IntRange(0, 3).Draw(t, "snauth"); i > 0; i-- {
+			sc.AuthFixtures = append(sc.AuthFixtures, rapid.SampledFrom([]int{0, 0, 1, 3}).Draw(t, "sauthfix"))
+		}
+		for i := rapid.IntRange(1, 3).Draw(t, "snsub"); i > 0; i-- {
+			ss := SubsetCase{Authority: rapid.SampledFrom(append([]uint64{0, 0, 1, 2, 3}, hostile...)).Draw(t, "sauthority"), SigValid: rapid.Bool().Draw(t, "ssigvalid")}
+			ss.Signed = signedSubset(rapid.IntRange(0, 2).Draw(t, "snurls"))
+			if rapid.IntRange(0, 2).Draw(t, "smut") == 0 {
+				ss.Signed = cborMutate(t, ss.Signed, "ssm")
+			}
+			if !ss.SigValid {
+				ss.Sig = rapid.SliceOfN(rapid.Byte(), 0, 80).Draw(t, "ssig")
+			}
+			sc.Subsets = append(sc.Subsets, ss)
+		}
+		return Case{Target: "signature.verify-struct", Sigs: sc, Origin: "signatures-struct"}
 	case "bundle":
 		a := smallBundleAsm(t)
 		file, slots := refbundle.Assemble(&a)
